@@ -3,10 +3,12 @@ from vf import Unit, Entry, Piece, R
 META = {"level": "model_checking"}
 DM = 'symengine/dense_matrix.cpp'
 TOK = [R('RCP<const Basic>', 'RCPBasic', n='*', why="RCP<const Basic> -> field element (prelude/field.h)"),
+       R('std::vector<unsigned>', 'uvec_d', n='*', why="std::vector<unsigned> -> fixed-capacity stub with bound-asserting accessors"),
        R(r'throw (\w+)\(((?:[^;()"]|"[^"]*"|\([^()]*\))*)\);', r'VERIF_THROW(\1);', n='*', regex=True, why="exception object dropped (DESIGN §8)"),
        R(r'pl\.push_back\(\{([^{}]*?),\s*([^{}]*?)\}\)', r'pl.push_back(mk_pair(\1, \2))', n='*', regex=True, why="braced-init-list argument -> explicit pair constructor")]
 AUTO_THIS = [R('auto A = *this;', 'DenseMatrix A = *this;', n=1, why="auto -> the deduced type")]
-RANGEFOR = [R('for (auto &p : pl) {', 'for (unsigned p__k = 0; p__k < pl.size(); p__k++) { pl_pair p = pl.at(p__k);', n=1, why="range-for over the permutation list -> index loop, body verbatim")]
+RANGEFOR = [R('for (auto &p : pl)', 'for (unsigned p__k = 0; p__k < pl.size(); p__k++) for (bool p__once = true; p__once; p__once = false) for (pl_pair p = pl.at(p__k); p__once; p__once = false)', n=1,
+              why="range-for over the permutation list -> index loop; the two single-iteration loops only scope the loop variable, so the body (braced or not) stays verbatim")]
 
 FREE = ['conjugate_dense', 'transpose_dense', 'conjugate_transpose_dense', 'submatrix_dense', 'add_dense_dense', 'add_dense_scalar', 'mul_dense_dense',
         'elementwise_mul_dense_dense', 'mul_dense_scalar', 'row_exchange_dense', 'row_mul_scalar_dense', 'row_add_row_dense', 'column_exchange_dense',
@@ -57,7 +59,7 @@ def units(tier):
         if h in BIG:
             uw = max(uw, n * mm + 2, (n * (n + 1) + 2) if h == 'h_berkowitz' else 0)
         shape = "%dx%d" % (n, mm)
-        us = ['%s.0:17' % f for f in ('any_matrix', 'any_vec', 'out_matrix', 'all_set', 'vb_fill', 'vb_shift_up', 'vb_shift_down')]
+        us = ['%s.0:17' % f for f in ('any_matrix', 'any_vec', 'out_matrix', 'all_set', 'vb_fill', 'vb_shift_up', 'vb_shift_down', 'uvd_fill')]
         ents.append(Entry(h, defines=d, route='B', timeout=timeout if tier == 'quick' else 4 * timeout, mem_gb=8, unwind=uw, unwindset=us,
                           bounds="%s matrices, every entry symbolic over GF(%d); loops unwound %d (stub copy loops 17) with unwinding assertions" % (shape, p, uw)))
     SLOW = ('h_inv_plu', 'h_solve_plu')              # > 5 min at 3x3: thorough tier only
